@@ -422,3 +422,20 @@ package oned
 //@   loop 0: decreases 2 - int(numSys)
 //@   loop 1: invariant 0 <= int(numSys) && int(numSys) <= 1 && 0 <= int(d) && int(d) <= 10 && len(resultString) == old(len(resultString)) && (forall n int, k int :: 0 <= n && n < int(numSys) && 0 <= k && k < 10 ==> upce_NUMSYS_AND_CHECK_DIGIT_PATTERNS[n][k] != lgPatternFound) && (forall k int :: 0 <= k && k < int(d) ==> upce_NUMSYS_AND_CHECK_DIGIT_PATTERNS[int(numSys)][k] != lgPatternFound)
 //@   loop 1: decreases 10 - int(d)
+
+// ---------------------------------------------------------------- ITF quiet zone (C03, C06): the min(10 narrow widths, startPattern) pixels before the
+// start pattern must all be white; skipWhiteSpace finds the first black pixel
+//@ func (this *itfReader) validateQuietZone(row *gozxing.BitArray, startPattern int) (e error)
+//@   property C03 C06
+//@   let q = (this.narrowLineWidth * 10 < startPattern ? this.narrowLineWidth * 10 : startPattern)
+//@   requires row != nil && gozxing.wfBA(row) && 0 <= startPattern && startPattern <= row.size && 0 <= this.narrowLineWidth && this.narrowLineWidth <= 1000000 && row.size <= 10000000
+//@   ensures (e == nil) == (forall k int :: startPattern - q <= k && k < startPattern ==> !gozxing.bit(row, k))
+//@   ensures e != nil ==> typeis(e, "gozxing.notFoundException")
+//@   modifies nothing
+//@   loop 0: invariant -1 <= i && i < startPattern && 0 <= quietCount && quietCount == q - (startPattern - 1 - i) && (forall k int :: i < k && k < startPattern ==> !gozxing.bit(row, k))
+//@   loop 0: decreases i + 1
+//@ func itfReader_skipWhiteSpace(row *gozxing.BitArray) (r int, e error)
+//@   property C03 C06
+//@   requires row != nil && gozxing.wfBA(row)
+//@   ensures (e != nil) == (r == row.size) && 0 <= r && r <= row.size && (forall k int :: 0 <= k && k < r ==> !gozxing.bit(row, k)) && (r < row.size ==> gozxing.bit(row, r))
+//@   modifies nothing
